@@ -112,3 +112,121 @@ Proof. vm_compute. eauto. Qed.
 
 Example ex_legal : legal ex_state (mk (Message 1 (CreateChannel 3 (CReceiver 16))) 2000).
 Proof. apply legal_dec_ok; [vm_compute; reflexivity|exact I|vm_compute; reflexivity|]. cbn. unfold u32_max. lia. Qed.
+
+(* ---- 6. the introspection database (broker built WITH the `introspection` feature):
+        broker/src/introspection_database.rs and the cfg(feature = "introspection") handlers of
+        broker.rs as the separate machine Broker/IntroDb.v (names prefixed i/I).  One step =
+        one dequeued event + the remove_conns work loop; [ch] is the list of provider indices
+        `rand` draws during the step (any list); [ilegal] only says that a new connection id is
+        not connected already. *)
+From Aldrin Require Import Broker.IntroDb Broker.IntroDbProofs.
+
+(* the invariant: per type the index map is exactly the positions of the provider vector, the
+   vector is duplicate-free and non-empty, providers / pending requesters / the queried provider
+   are connected, a pending requester implies an outstanding provider query, and the SerialMap of
+   provider queries and the entries' `queried` fields describe each other *)
+Theorem C09_introdb_invariant : forall s, ireachable s -> idb_inv s.
+Proof. exact idb_inv_reachable. Qed.
+Print Assumptions C09_introdb_invariant.
+
+(* no expect / index / swap_remove / debug_assert! of these paths fires, whatever `rand` draws *)
+Theorem C09_introdb_no_panic : forall s e ch site,
+  ireachable s -> ilegal s e -> istep s e ch <> IPanic site.
+Proof. exact introdb_no_panic. Qed.
+Print Assumptions C09_introdb_no_panic.
+
+(* after a connection ended (by itself or forced) nothing refers to it: not the connection table,
+   no provider vector, no index map, no outstanding provider query, no pending requester *)
+Theorem C09_introdb_release : forall s c e ch s' o,
+  ireachable s -> e = IConnShutdown c \/ e = IShutdownConn c ->
+  istep s e ch = IDone (s', o) -> idb_no_ref c s'.
+Proof. exact introdb_release. Qed.
+Print Assumptions C09_introdb_release.
+
+(* no connection left: no introspection entry and no outstanding provider query left *)
+Theorem C09_introdb_empty : forall s,
+  ireachable s -> i_conns s = ∅ -> i_entries s = ∅ /\ i_qmap s = ∅.
+Proof. exact introdb_empty. Qed.
+Print Assumptions C09_introdb_empty.
+
+(* the work loop's fuel (the Rust loop has none) is never exhausted, and a step of a reachable state
+   completes unless the driver supplied fewer drawn indices than the step needs or all 2^32 provider
+   query serials are occupied (where SerialMap::insert would not terminate) *)
+Theorem C09_introdb_fuel : forall s e ch,
+  ireachable s -> ilegal s e -> istep s e ch <> IHalt NoFuel.
+Proof. exact introdb_fuel. Qed.
+Print Assumptions C09_introdb_fuel.
+
+Theorem C09_introdb_completes : forall s e ch,
+  ireachable s -> ilegal s e ->
+  (exists s' o, istep s e ch = IDone (s', o)) \/ (exists n, istep s e ch = IHalt (NeedChoice n)) \/
+  istep s e ch = IHalt NoSerial.
+Proof. exact introdb_completes. Qed.
+Print Assumptions C09_introdb_completes.
+
+(* idle shutdown completes: the run loop exits exactly when idle shutdown was requested and the
+   connection table is empty (and then, by C09_introdb_empty, the database is empty); the request
+   sets the flag and no later step clears it *)
+Theorem C09_introdb_idle : forall s, iexits s = true <-> i_idle s = true /\ i_conns s = ∅.
+Proof. exact introdb_idle. Qed.
+Print Assumptions C09_introdb_idle.
+
+Theorem C09_introdb_idle_set : forall s ch s' o,
+  istep s IShutdownIdle ch = IDone (s', o) -> i_idle s' = true /\ i_conns s' = i_conns s /\ o = [].
+Proof. exact introdb_idle_set. Qed.
+Print Assumptions C09_introdb_idle_set.
+
+Theorem C09_introdb_idle_kept : forall s e ch s' o,
+  ireachable s -> ilegal s e -> istep s e ch = IDone (s', o) -> i_idle s = true -> i_idle s' = true.
+Proof. exact introdb_idle_kept. Qed.
+Print Assumptions C09_introdb_idle_kept.
+
+(* every message of a step goes to a connection that is connected, with a live receiver, when the
+   step begins: a connection that has been removed (C09_introdb_release) is never sent anything *)
+Theorem C09_introdb_outputs_connected : forall s e ch s' o,
+  istep s e ch = IDone (s', o) ->
+  forall c x, (c, x) ∈ o -> exists ci, i_conns s !! c = Some ci /\ ci_alive ci = true.
+Proof. exact introdb_outputs_connected. Qed.
+Print Assumptions C09_introdb_outputs_connected.
+
+(* every query is accounted for, exactly: for a connection r that is still connected with a live
+   receiver after the step, the multiset of serials of its pending queries plus the serials of the
+   QueryIntrospectionReply messages it gets in this step is what was pending before plus the
+   serial of the query it sent in this step.  So a query is pending (and then, by the invariant,
+   a connected provider has been asked and has not answered) until it is answered, and it is
+   answered once.  The hypothesis excludes the one step where the Rust drops queries: r itself is
+   the asked provider and answers Unavailable (see C09_introdb_self_unavailable_drops_query) *)
+Theorem C09_introdb_query_answered : forall s e ch s' o r ci,
+  ireachable s -> ilegal s e -> istep s e ch = IDone (s', o) ->
+  i_conns s' !! r = Some ci -> ci_alive ci = true ->
+  (forall sr, e <> IReplyMsg r sr None) ->
+  pend_of s' r ⊎ replies_to r o = pend_of s r ⊎ asked e r.
+Proof. exact introdb_query_answered. Qed.
+Print Assumptions C09_introdb_query_answered.
+
+(* the excluded case happens: connection 1 registers type 5, asks for type 5 with serial 0, is
+   itself the provider the broker asks, answers Unavailable: the entry is dropped and connection 1,
+   still connected, never gets a reply to its query *)
+Theorem C09_introdb_self_unavailable_drops_query :
+  exists s os, irun self_unavail_history = Some (s, os) /\
+    os = [[]; []; [(1%N, IQuery 0 5)]; []] /\ size (i_entries s) = 0%nat /\ is_Some (i_conns s !! 1%N).
+Proof. exact self_unavail_drops_query. Qed.
+Print Assumptions C09_introdb_self_unavailable_drops_query.
+
+(* what C09_introdb_no_panic excludes: with the fix-up guard `idx < self.conn_ids.len() - 1`
+   (seeded defect C09-c) instead of `idx != self.conn_ids.len()`, three providers A, B, C of one
+   type, B leaves, C leaves: the index map still holds C's old index 2 and swap_remove panics
+   (site 101); the guard of the Rust source completes on the same history *)
+Definition guard_seeded (idx n : nat) : bool := (idx <? n - 1)%nat.
+Definition entry_abc : ientry := entry_register (entry_register (entry_register ientry0 1%N) 2%N) 3%N.
+Definition entry_after (r : ioutcome (ientry * bool)) : ientry :=
+  match r with IDone (e, _) => e | _ => ientry0 end.
+Definition seeded_e1 : ientry := entry_after (entry_remove_conn_g guard_seeded entry_abc 2%N).
+Definition rust_e1 : ientry := entry_after (entry_remove_conn entry_abc 2%N).
+Definition rust_e2 : ientry := entry_after (entry_remove_conn rust_e1 3%N).
+Example C09_introdb_seeded_guard_panics :
+  (entry_remove_conn_g guard_seeded entry_abc 2%N = IDone (seeded_e1, true) /\
+   entry_remove_conn_g guard_seeded seeded_e1 3%N = IPanic 101%N) /\
+  (entry_remove_conn entry_abc 2%N = IDone (rust_e1, true) /\
+   entry_remove_conn rust_e1 3%N = IDone (rust_e2, true) /\ e_ids rust_e2 = [1%N]).
+Proof. repeat split; vm_compute; reflexivity. Qed.
